@@ -6,6 +6,7 @@
 (* the model state, which is fed with the REAL balances, commit fees and     *)
 (* dust limits recorded on the Reset/Inject lines.                           *)
 (*  kind "tx"  (harness/lnwallet/c17_test.go): Reset, Pay, Inject, Close     *)
+(*             Rbf (harness/lnwallet/chancloser/c17_rbf_test.go)             *)
 (*  kind "neg" (harness/lnwallet/chancloser/c17_test.go): Reset, Begin,      *)
 (*             Cache, Recv, NegEnd                                           *)
 EXTENDS CoopClose, Json
@@ -45,6 +46,7 @@ TNext ==
      /\ tx' = [p \in P |-> NoTx] /\ UNCHANGED negVars
   \/ Is("Pay") /\ Pay(Trace[l].p, Trace[l].x) /\ UNCHANGED negVars
   \/ Is("Close") /\ CloseAt(Trace[l].x, Trace[l].p) /\ UNCHANGED negVars
+  \/ Is("Rbf") /\ RbfRound(Trace[l].x, Trace[l].p) /\ UNCHANGED negVars
   \/ Is("Begin") /\ Trace[l].p = ch.opener /\ Begin
   \/ Is("Cache") /\ UNCHANGED vars       \* closing_signed arriving before the flush: stored, nothing happens
   \/ Is("Recv") /\ turn = Trace[l].p /\ msg = Trace[l].x /\ Receive
@@ -53,8 +55,8 @@ TNext ==
 TSpec == TInit /\ [][TNext]_<<vars, l>>
 
 Live == l > 1
-IsTx == Live /\ (Last.a \in {"Pay", "Inject", "Close"} \/ (Last.a = "Reset" /\ Last.kind = "tx"))
-AtClose == Live /\ Last.a = "Close"
+IsTx == Live /\ (Last.a \in {"Pay", "Inject", "Close", "Rbf"} \/ (Last.a = "Reset" /\ Last.kind = "tx"))
+AtClose == Live /\ Last.a \in {"Close", "Rbf"}
 
 \* ---- transaction layer ----
 ConformCfg  == (Live /\ Last.a = "Reset" /\ Last.kind = "tx") => Last.cap = Capacity
